@@ -5,7 +5,10 @@ from pyvc.contracts import Ctx
 from pyvc.core import Obligation, VRef, fresh, Int
 
 META = {"level": "proof", "trusted_base": ["assumed contract of sorted() (container classes, bounded stand-in only)"],
-        "assumptions": ["typing invariants of node fields (uuid is a UUID, offset/size are ints, decode_mode an enum member)"]}
+        "assumptions": ["typing invariants of node fields (uuid is a UUID, offset/size are ints, decode_mode an enum member)",
+                        "the abstract classes Block / CfgNode / SymbolicExpression have no direct instances",
+                        "x.deep_eq(o) on a receiver of statically unknown class is the relation DEQ(x, o) that the contract of "
+                        "the receiver's class characterises (dynamic dispatch)"]}
 
 
 def bounded(tier, seed, known):
@@ -45,4 +48,44 @@ def extra_obligations(prog, schema, reg, eng):
             obls.append(Obligation("C18/lemma.deep_eq.symmetric[%s,%s]" % (k1.recv, k2.recv),
                                    base + [c.kind(x) == id1, c.kind(y) == id2],
                                    k1.exact(c, x, VRef(y)) == k2.exact(c, y, VRef(x))))
+    # ---- second layer: Symbol, SymAddrConst, SymAddrAddr.  Their bodies call deep_eq on their referents / symbols; by the
+    # contracts of the layer below, DEQ(u, o) is the proved characterisation for receivers u of each class (hypotheses H).
+    from contracts.deepeq import symbol_exact, symexpr_exact, sym_typed
+    from specs.deepeq import DEQ
+    from pyvc.core import Val, is_VRef, ref
+    u = fresh("u", Int)
+    o = fresh("o", Val)
+    H = [z3.ForAll([u, o], z3.Implies(c.kind(u) == schema.class_id(k.recv), DEQ(u, o) == k.exact(c, u, o)),
+                   patterns=[DEQ(u, o)]) for k in leaves]
+    n = fresh("n", Int)
+    from pyvc.core import is_VNone
+    leaf_ids = [schema.class_id(k.recv) for k in leaves]
+    p_ = c.get("__payload", n)
+    # referents are instances of the concrete block classes (the abstract classes Block / CfgNode have no instances)
+    typed_syms = z3.ForAll([n], z3.Implies(c.isinst(n, "Symbol"), z3.And(
+        sym_typed(c, n), z3.Implies(is_VRef(p_), z3.Or([c.kind(ref(p_)) == i for i in leaf_ids])))))
+    sid = schema.class_id("Symbol")
+    obls.append(Obligation("C18/lemma.deep_eq.reflexive[Symbol]", base + H + [typed_syms, c.kind(x) == sid],
+                           symbol_exact(c, x, VRef(x))))
+    obls.append(Obligation("C18/lemma.deep_eq.symmetric[Symbol,Symbol]", base + H + [typed_syms, c.kind(x) == sid, c.kind(y) == sid],
+                           symbol_exact(c, x, VRef(y)) == symbol_exact(c, y, VRef(x))))
+    for k in leaves:
+        obls.append(Obligation("C18/lemma.deep_eq.symmetric[Symbol,%s]" % k.recv,
+                               base + H + [typed_syms, c.kind(x) == sid, c.kind(y) == schema.class_id(k.recv)],
+                               symbol_exact(c, x, VRef(y)) == k.exact(c, y, VRef(x))))
+    HS = H + [z3.ForAll([u, o], z3.Implies(c.kind(u) == sid, DEQ(u, o) == symbol_exact(c, u, o)), patterns=[DEQ(u, o)])]
+    for cls in ("SymAddrConst", "SymAddrAddr"):
+        cid = schema.class_id(cls)
+        flds = ["symbol"] if cls == "SymAddrConst" else ["symbol1", "symbol2"]
+        typed_e = z3.ForAll([n], z3.Implies(c.kind(n) == cid, z3.And(
+            [z3.And(is_VRef(c.get(f, n)), c.kind(ref(c.get(f, n))) == sid) for f in flds])))
+        obls.append(Obligation("C18/lemma.deep_eq.reflexive[%s]" % cls, base + HS + [typed_syms, typed_e, c.kind(x) == cid],
+                               symexpr_exact(c, cls, x, VRef(x))))
+        obls.append(Obligation("C18/lemma.deep_eq.symmetric[%s,%s]" % (cls, cls),
+                               base + HS + [typed_syms, typed_e, c.kind(x) == cid, c.kind(y) == cid],
+                               symexpr_exact(c, cls, x, VRef(y)) == symexpr_exact(c, cls, y, VRef(x))))
+    other = "SymAddrAddr"
+    obls.append(Obligation("C18/lemma.deep_eq.symmetric[SymAddrConst,SymAddrAddr]",
+                           base + [c.kind(x) == schema.class_id("SymAddrConst"), c.kind(y) == schema.class_id(other)],
+                           symexpr_exact(c, "SymAddrConst", x, VRef(y)) == symexpr_exact(c, other, y, VRef(x))))
     return obls
